@@ -1,7 +1,7 @@
 /* vocabulary for p?gstrf_bmod2D / bmod1D (sup-panel update of the w columns of a panel by ONE updating supernode).
  * Capacities: M rows (= stride of the n-by-w work arrays), W panel width, LC row subscripts, LUC stored values of L,
- * TVC scalars of tempv (1-D kernel: tempv[0..segsze) = solved segment, tempv[segsze..segsze+nrow) = product), NP threads.  The harness owns every array (in_*); scalar arguments are bound to in_* by [scalars].
- * Supernode geometry (ghost scalars bound by [geometry]): g_lptr = xlsub[fsupc] (start of the row list, in_nsupr rows),
+ * TVC scalars of tempv (1-D kernel: tempv[0..segsze) = solved segment, tempv[segsze..segsze+nrow) = product), NP threads.  The harness owns every array (in_*); the scalar arguments are the in_* scalars.
+ * Supernode geometry (ghost scalars bound by REQ(geometry)): g_lptr = xlsub[fsupc] (start of the row list, in_nsupr rows),
  * g_xf = xlusup[fsupc] (start of the in_nsupr x in_nsupc column-major block, lda = in_nsupr).
  * Panel column c (0 <= c < w): its U-segment w.r.t. the supernode covers supernode columns KFNZ(c)..krep. */
 #define KFNZ(c)    in_repfnz[(c)*in_m + in_krep]
@@ -11,7 +11,6 @@
 #define BLAS(c)    (ACTIVE(c) && SEGSZE(c) >= 4)                 /* the column goes through trsv/gemv (else hand-unrolled) */
 #define INLIST(p)  (g_lptr <= (p) && (p) < g_lptr + in_nsupr)     /* position inside the supernode's row list */
 #define DENSE(c,r) in_dense[(c)*in_m + (r)]
-#define DENSE0(c,r) g_dense0[(c)*in_m + (r)]
 /* offsets into lusup the update is defined on */
 #define TRI_OFF(c)   (g_xf + in_nsupr*NOZEROS(c) + NOZEROS(c))               /* diagonal block: row no_zeros, column no_zeros */
 #define RECT_OFF(c,r) (g_xf + in_nsupr*NOZEROS(c) + in_nsupc + (r))          /* row nsupc+r, column no_zeros */
